@@ -213,28 +213,39 @@ def run(ctx, rep):
             else:
                 bad_paths.append((t['line'], f'bit==0 is {bit[0]}, index+1==next.index is {pair[:1]}: hashes {order}'))
     # completeness of the sibling lookup: queue[start + 1] is consulted only when it exists (start + 1 != len was tested
-    # true on the path); otherwise an honest last left child would be rejected as IndexInvalid
+    # true on the path); otherwise an honest last left child would be rejected as IndexInvalid. `start` may be the
+    # parameter (recursive form) or a cursor variable (loop form): the read and the test must agree on it.
+    def succ_of(t):
+        """X for a tree X + 1 (checked-add projection stripped), else None"""
+        if isinstance(t, tuple) and t[0] == 'proj' and t[2] == '0':
+            t = t[1]
+        if isinstance(t, tuple) and t[0] == 'add' and len(t) == 3 and ('val', 1) in t[1:]:
+            o = [x for x in t[1:] if x != ('val', 1)]
+            return o[0] if len(o) == 1 else ('val', 1)
+        return None
     nx_paths = nx_bad = 0
     for bi, t in cr.calls():
         if t['f'].get('name') not in ('get', 'index') or len(t.get('args', [])) != 2:
             continue
-        if not (Tr.operand(t['args'][0]) == ('arg', 1) and plus1(Tr.operand(t['args'][1]))):
-            continue
         for pth in exprtree.paths_to(cr, bi) or []:
             PT = exprtree.PathTrees(db, cr, pth)
+            base, ix = PT.operand(t['args'][0]), succ_of(PT.operand(t['args'][1]))
+            if ix is None or not (base == ('arg', 1) or exprtree.show(base).startswith(('a1', 'phi'))):
+                continue
             if not PT.consistent():
                 continue
             nx_paths += 1
             tested = False
             for c, v in PT.decisions():
                 if isinstance(c, tuple) and len(c) == 3 and c[0] in ('Ne', 'ne', 'Lt', 'lt', 'Eq', 'eq') and \
-                        any(x == ('len', ('arg', 1)) for x in c[1:]) and any(plus1(x) for x in c[1:]):
+                        any(x == ('len', base) for x in c[1:]) and any(succ_of(x) == ix for x in c[1:]):
                     holds = (v != '0') if c[0] in ('Ne', 'ne', 'Lt', 'lt') else (v == '0')
                     tested = tested or holds
             if not tested:
                 nx_bad += 1
-    rep.ob('C04.index', 'next-exists', nx_paths > 0 and nx_bad == 0,
-           f'queue[start + 1] is read on {nx_paths} path(s); {nx_bad} of them without having tested start + 1 != queue.len()', cr.loc(), cfg)
+    rep.ob('C04.index', 'next-exists', nx_bad == 0,
+           f'queue[start + 1] is read on {nx_paths} path(s); {nx_bad} of them without having tested start + 1 != queue.len()'
+           + ('' if nx_paths else ' (no such read recognised: nothing to decide)'), cr.loc(), cfg)
     okl = not bad_paths and seen_orders == {'merge', 'left', 'right'}
     rep.ob('C04.index', 'left-right', okl,
            f'node hash argument order on {n_paths} paths: ' + ('(current, next) when bit==0 and index+1==next.index; (current, auth) when bit==0; '
